@@ -49,3 +49,113 @@ H(prop="C11", name="c11_anb_parse_total_n12", crate="config-h", module="anb",
 H(prop="C11", name="c11_nth_is_matched_total", crate="config-h", module="anb",
   decides="is_matched never panics (sub/div/rem overflow) for any (step, offset) in i32^2",
   functions=ANB_FUNCS[1:], shape="INT", bounds="step, offset: full i32; index < 2^31-2")
+
+# ---------------------------------------------------------------- C07
+TPL_FUNCS = ["ast_grep_core::replacer::template::create_template", "ast_grep_core::replacer::split_first_meta_var",
+             "ast_grep_core::replacer::indent::get_indent_at_offset"]
+H(prop="C07", name="c07_split_first_meta_var_n7", crate="core-h", module="c07_template",
+  decides="split_first_meta_var(s) == (up to 3 sigils, maximal [A-Z_0-9]+ name, kind single/multi/transformed) or None, for every s starting with the sigil",
+  functions=TPL_FUNCS[1:2], shape="STR", bounds="all strings <= 7 bytes over {$,A,T,_,1,b} starting with $; unwind 9")
+H(prop="C07", name="c07_template_scan_n3", crate="core-h", module="c07_template",
+  decides="fragments/variables/indents of the parsed template == reference scanner, for every template",
+  functions=TPL_FUNCS, shape="STR", bounds="all templates <= 3 bytes over {$,A,T,_,1,' ',\\n}, transform keys {T}; unwind 5", timeout=900)
+H(prop="C07", name="c07_template_scan_n4", crate="core-h", module="c07_template", tier="thorough",
+  decides="fragments/variables/indents of the parsed template == reference scanner, for every template",
+  functions=TPL_FUNCS, shape="STR", bounds="all templates <= 4 bytes over {$,A,T,_,1,' ',\\n}, transform keys {T}; unwind 6", timeout=5400, mem_gb=24)
+
+# ---------------------------------------------------------------- C16
+H(prop="C16", name="c16_char_column_4ch", crate="core-h", module="c16_positions",
+  decides="get_char_column(offset) == number of chars since the last newline (forward decode)",
+  functions=["ast_grep_core::source::<String as Content>::get_char_column"], assumes=[ST_UTF8],
+  shape="STR", bounds="all texts of <= 4 chars over {a, e-acute(2B), emoji(4B), \\n} (<= 16 bytes), every char-boundary offset; unwind 18")
+H(prop="C16", name="c16_display_context_n6", crate="core-h", module="c16_positions",
+  decides="display_context(before,after): leading/matched/trailing/start_line == whole-line window computed independently",
+  functions=["ast_grep_core::node::Node::display_context"], assumes=[ST_TS],
+  shape="STR+1 node", bounds="all texts <= 6 bytes over {a,\\n}, every node range s<=e<=len, before,after <= 2; unwind 8")
+H(prop="C16", name="c16_display_context_n9", crate="core-h", module="c16_positions", tier="thorough",
+  decides="display_context(before,after): leading/matched/trailing/start_line == whole-line window computed independently",
+  functions=["ast_grep_core::node::Node::display_context"], assumes=[ST_TS],
+  shape="STR+1 node", bounds="all texts <= 9 bytes over {a,\\n}, every node range, before,after <= 2; unwind 11")
+
+# ---------------------------------------------------------------- C10
+H(prop="C10", name="c10_input_edit_exact_n4", crate="core-h", module="c10_edit", mem_gb=24,
+  decides="AstGrep::edit: new text == splice; the old tree receives exactly one Tree::edit whose InputEdit (bytes and row/col points) describes the change exactly; re-parse is given the old tree",
+  functions=["ast_grep_core::node::Root::do_edit", "ast_grep_core::source::perform_edit",
+             "ast_grep_core::source::<String as Content>::accept_edit", "ast_grep_core::source::position_for_offset"],
+  assumes=[ST_TS, "tree-sitter contract: incremental parse == fresh parse iff the old tree was edited exactly once with an exact InputEdit"],
+  shape="STR", bounds="every size class len<=4, position<=len, deleted<=len-position, inserted<=2 enumerated concretely (105 classes) x symbolic contents over {a,\\n}/{b,\\n}; unwind 7")
+
+# ---------------------------------------------------------------- small config kernels
+H(prop="C20", name="c20_resolve_char_python", crate="config-h", module="small_kernels",
+  decides="resolve_char(index, default, len) == Python slice index normalisation",
+  functions=["ast_grep_config::transform::transformation::resolve_char"],
+  shape="INT", bounds="index: full i32 or absent; len: every i32 >= 0; default in {0, len}")
+H(prop="C11", name="c11_transform_source_total", crate="config-h", module="small_kernels",
+  decides="Transformation::used_vars / parse never panic on any `source` string",
+  functions=["ast_grep_config::transform::transformation::Transformation::used_vars",
+             "ast_grep_config::transform::transformation::parse_meta_var"],
+  shape="STR", bounds="all strings of <= 3 symbols over {$, A, a, e-acute(2B)} incl. empty; unwind 6",
+  kf_keys=["transform_source_first_char"])
+H(prop="C14", name="c14_suppress_set_parse", crate="config-h", module="small_kernels",
+  decides="parse_suppression_set(comment) == ids listed after `ast-grep-ignore:` (trimmed), None iff nothing listed",
+  functions=["ast_grep_config::combined::parse_suppression_set"],
+  shape="STR", bounds="`// ast-grep-ignore` + every tail <= 7 bytes over {a,b,:,',',' '}, <= 4 ids; unwind 27")
+
+# ---------------------------------------------------------------- C19
+NAV = {
+ "children_parent": ("children()/parent()/child(i)/is_leaf agree with the arena; child ranges nest and are ordered", ["ast_grep_core::node::Node::children", "ast_grep_core::node::Node::child", "ast_grep_core::node::Node::parent"]),
+ "ancestors_chain": ("ancestors() == iterated parent(), nearest first", ["ast_grep_core::node::Node::ancestors"]),
+ "siblings_iter": ("next_all()/prev_all() == iterated next()/prev() (non-zero-width nodes)", ["ast_grep_core::node::Node::next_all", "ast_grep_core::node::Node::prev_all"]),
+ "pre_order": ("Pre from any start node visits exactly its subtree, once each, in pre-order", ["ast_grep_core::traversal::Pre::next", "ast_grep_core::traversal::Pre::trace_up"]),
+ "post_order": ("Post from any start node visits exactly its subtree, once each, in post-order", ["ast_grep_core::traversal::Post::next", "ast_grep_core::traversal::Post::trace_down"]),
+ "level_order": ("Level from any start node visits exactly its subtree, once each, level by level", ["ast_grep_core::traversal::Level::next"]),
+}
+for key, (dec, funcs) in NAV.items():
+    if key == "level_order":
+        # VecDeque + per-node child Vec: the n=4 instance needs > 14 GB; quick tier uses n=3
+        H(prop="C19", name="c19_level_order_n3", crate="core-h", module="c19_nav", decides=dec, functions=funcs, assumes=[ST_TS],
+          shape="ANY(3)", bounds="every tree of <= 3 nodes, every start node; unwind 10")
+        H(prop="C19", name="c19_level_order_n4", crate="core-h", module="c19_nav", tier="thorough", decides=dec, functions=funcs, assumes=[ST_TS],
+          shape="ANY(4)", bounds="every tree of <= 4 nodes, every start node; unwind 10", timeout=3000, mem_gb=30)
+        continue
+    H(prop="C19", name=f"c19_{key}_n4", crate="core-h", module="c19_nav", decides=dec, functions=funcs, assumes=[ST_TS],
+      shape="ANY(4)", bounds="every tree of <= 4 nodes (symbolic pre-order parent vector), symbolic kinds/named bits, leaf widths 0-2 (1-2 for sibling clauses), gaps 0-1, every start node; unwind 10")
+    H(prop="C19", name=f"c19_{key}_n5", crate="core-h", module="c19_nav", tier="thorough", decides=dec, functions=funcs, assumes=[ST_TS],
+      shape="ANY(5)", bounds="every tree of <= 5 nodes (symbolic pre-order parent vector), symbolic kinds/named bits, leaf widths 0-2 (1-2 for sibling clauses), gaps 0-1, every start node; unwind 10", timeout=3000, mem_gb=20)
+
+# ---------------------------------------------------------------- C03 / C02 alignment (FLAT)
+REC_FLAT = {
+  "ast_grep_core::match_tree::does_node_match_exactly::<": 1,
+  "ast_grep_core::match_tree::match_node::match_node_impl::<": 2,
+  "ast_grep_core::match_tree::match_node::match_nodes_impl_recursive::<": 1,
+  "ast_grep_core::match_tree::match_node::may_match_ellipsis_impl::<": 1,
+}
+ALIGN_FUNCS = ["ast_grep_core::match_tree::match_node::match_node_impl", "ast_grep_core::match_tree::match_node::match_nodes_impl_recursive",
+               "ast_grep_core::match_tree::match_node::may_match_ellipsis_impl", "ast_grep_core::match_tree::strictness::MatchStrictness::match_terminal",
+               "ast_grep_core::meta_var::MetaVarEnv::insert"]
+ALIGN_ASSUMES = [ST_TS, "namedness is a function of the kind id; anonymous tokens' text is fixed by their kind"]
+H(prop="C03", name="c03_sound_len_t_cap_t_k3", crate="core-h", module="c03_align", recursion=REC_FLAT, timeout=1500,
+  decides="pattern [T,$A,T]: get_match_len = Some(len) on a FLAT(k) node => a legal alignment exists (oracle from the property text); len <= node",
+  functions=ALIGN_FUNCS[:4], assumes=ALIGN_ASSUMES,
+  shape="FLAT(3)", bounds="k <= 3 candidate leaves with symbolic kind in {ident,number,comment,punct_a,punct_b}, 1-byte texts over {x,y}; goal terminals symbolic incl. ERROR kind; all 5 strictness; unwind 10, recursion depth 2")
+H(prop="C03", name="c03_sound_env_t_cap_k2", crate="core-h", module="c03_align", recursion=REC_FLAT, timeout=1500,
+  decides="pattern [T,$A]: match_node = Some on a FLAT(k) node => a legal alignment exists",
+  functions=ALIGN_FUNCS, assumes=ALIGN_ASSUMES + [ST_MAP],
+  shape="FLAT(2)", bounds="k <= 2 candidate leaves, symbolic labels, all 5 strictness; unwind 10, recursion depth 2")
+
+# ---------------------------------------------------------------- C01 / C06 search drivers
+SEARCH_ASSUMES = [ST_TS, "matcher stub SymM: symbolic verdict per node; potential_kinds assumed to contain the kind of every node it accepts (the trait's contract)"]
+for n, tier in ((4, "quick"), (5, "thorough")):
+    H(prop="C01", name=f"c01_find_all_exact_n{n}", crate="core-h", module="c01_search", tier=tier,
+      decides="FindAllNodes (kind prefilter + Pre) yields exactly the matching nodes of the subtree, ascending document order, none dropped/invented/duplicated",
+      functions=["ast_grep_core::matcher::FindAllNodes::next", "ast_grep_core::traversal::Pre::next"], assumes=SEARCH_ASSUMES,
+      shape=f"ANY({n})", bounds=f"every tree <= {n} nodes, every start node, symbolic verdict vector, symbolic kind set (or None) over kinds 1..8; unwind 10", timeout=3000 if n == 5 else 900, mem_gb=20)
+    H(prop="C01", name=f"c01_outermost_pre_n{n}", crate="core-h", module="c01_search", tier=tier,
+      decides="Visitor::reentrant(false) yields exactly the matched nodes without a matched proper ancestor, in document order",
+      functions=["ast_grep_core::traversal::Visit::next", "ast_grep_core::traversal::Pre::calibrate_for_match", "ast_grep_core::traversal::Pre::trace_up"], assumes=SEARCH_ASSUMES,
+      shape=f"ANY({n})", bounds=f"every tree <= {n} nodes, every start node, symbolic verdict vector; unwind 10", timeout=3000 if n == 5 else 900, mem_gb=20)
+H(prop="C06", name="c06_replace_all_disjoint_n4", crate="core-h", module="c01_search",
+  decides="Node::replace_all: edits ordered, pairwise disjoint, inside the file; each edit = [matched.start, matched.start + match_len)",
+  functions=["ast_grep_core::node::Node::replace_all", "ast_grep_core::matcher::node_match::NodeMatch::make_edit", "ast_grep_core::replacer::Replacer::get_replaced_range"],
+  assumes=SEARCH_ASSUMES + ["get_match_len stub returns a length <= the node's length"],
+  shape="ANY(4)", bounds="every tree <= 4 nodes, symbolic verdicts and match lengths; unwind 10", timeout=900, mem_gb=20)
